@@ -168,16 +168,22 @@ def sliceIdxs (n : Nat) (s : Slice) (k : Int) : List Nat :=
     let lo : Int := match s.stop with | none => -1 | some b => bound b
     (List.range ((hi - lo + (-k) - 1) / (-k)).toNat).map (fun (j : Nat) => (hi + (j : Int) * k).toNat)
 
+/-- lower / upper position of a step-1 slice of a sequence of length `n` (`None` = from the start / to the end) -/
+def sliceLo (n : Nat) : Option Int → Nat
+  | none => 0
+  | some a => sliceBound n a
+def sliceHi (n : Nat) : Option Int → Nat
+  | none => n
+  | some b => sliceBound n b
+
 /-- `t[s]` for a slice object -/
 def sliceGet {β : Type} (l : List β) (s : Slice) : M (List β) :=
   match s.step with
   | some 0 => .error (.py .valueError)
   | some k =>
-      if k = 1 then .ok ((l.take (match s.stop with | none => l.length | some b => sliceBound l.length b)).drop
-                          (match s.start with | none => 0 | some a => sliceBound l.length a))
+      if k = 1 then .ok ((l.take (sliceHi l.length s.stop)).drop (sliceLo l.length s.start))
       else .ok ((sliceIdxs l.length s k).filterMap (fun j => l[j]?))
-  | none => .ok ((l.take (match s.stop with | none => l.length | some b => sliceBound l.length b)).drop
-                  (match s.start with | none => 0 | some a => sliceBound l.length a))
+  | none => .ok ((l.take (sliceHi l.length s.stop)).drop (sliceLo l.length s.start))
 
 /-! ## loops -/
 
